@@ -46,9 +46,14 @@ def sa_bases(env, style):
                 ("pre-joined outer P.o", lambda: q().outerjoin(P.o), "join:o"), ("pre-joined P.w (maybe unused)", lambda: q().outerjoin(P.w), "join:w"), ("pre-joined P.dept (natural key)", lambda: q().outerjoin(P.dept), None),
                 ("pre-joined P.o filtered on it", lambda: q().join(P.o).filter(O.n == 5), "join:o"), ("ordered desc", lambda: q().order_by(P.id.desc()), "order")]
     if style == "core":
-        t = P.__table__
+        t = P.__table__; ot = O.__table__; kt = K.__table__
         s = lambda: sa.select(t)
-        return [("select(table)", s, None), ("pre-filtered", lambda: s().where(t.c.a >= 0), None), ("ordered desc", lambda: s().order_by(t.c.id.desc()), "order")]
+        return [("select(table)", s, None), ("pre-filtered", lambda: s().where(t.c.a >= 0), None), ("ordered desc", lambda: s().order_by(t.c.id.desc()), "order"),
+                # pre-joined Core statements: the filter is about the SELECTED table wherever the FROM clause is anchored
+                ("select(p) joined to o", lambda: sa.select(t).join(ot, t.c.o_id == ot.c.id, isouter=True), None),
+                ("select(p) FROM o JOIN p", lambda: sa.select(t).select_from(ot).join(t, t.c.o_id == ot.c.id), None),
+                ("select(p cols) join_from(o, p)", lambda: sa.select(t.c.id, t.c.a, t.c.s).join_from(ot, t, t.c.o_id == ot.c.id), None),
+                ("select(p) FROM k JOIN p", lambda: sa.select(t).select_from(kt).join(t, kt.c.p_id == t.c.id).distinct(), None)]
     s = lambda: sa.select(P)
     return [("select", s, None), ("pre-filtered", lambda: s().where(P.a >= 0), None), ("pre-joined P.o (used)", lambda: s().join(P.o), "join:o"),
             ("pre-joined outer P.o", lambda: s().outerjoin(P.o), "join:o"), ("pre-joined P.w (maybe unused)", lambda: s().outerjoin(P.w), "join:w"),
